@@ -286,6 +286,7 @@ GEN_LOGIC_COROLLARIES = {
     'regenerated_roundtrip': ['create_mpint', 'parse_mpint', 'mpint2_pad_fmt'],
     'regenerated_roundtrip_ssh1': ['create_mpint', 'parse_mpint'],
     'regenerated_kexinit_roundtrip': ['kex_parse', 'kex_write'],
+    'regenerated_pkm_roundtrip': ['pkm_parse', 'pkm_write'],
 }
 
 
